@@ -2,7 +2,8 @@
 
 A simulated cluster (NPools nodes, one session) provides the real holders: one HostConnection pool per node and
 the ControlConnection, each with one SimConnection whose id space is scaled down to the spec's MaxId.  The real
-``ConnectionHeartbeat.run`` is executed - without starting a thread - for exactly one loop iteration per round:
+``ConnectionHeartbeat.run`` is executed - the object is built by the real ``__init__`` with ``start()`` a no-op,
+so no thread - for exactly one loop iteration per round:
 its ``_shutdown_event`` is a scripted object whose ``is_set()`` (called by run() between any two loop bodies via
 ``_raise_if_stopped``) hands control back to the harness (greenlet switch), so that the event-loop actions of a
 behaviour (the answer to the OPTIONS request, a transport failure) are interleaved exactly where the
@@ -15,7 +16,6 @@ connections the holders still hand out.  A recording subclass of HeartbeatFuture
 cassandra.connection.HeartbeatFuture for the duration of a round) only logs construction and the result of wait().
 """
 from collections import deque
-from threading import Thread
 
 import greenlet
 
@@ -52,15 +52,17 @@ class ScriptedShutdownEvent:
 
 
 class OneRoundHeartbeat(cconn.ConnectionHeartbeat):
-    """ConnectionHeartbeat whose construction does not start the thread."""
+    """The real ConnectionHeartbeat, built by its real __init__ (whatever state that creates); only start() is a
+    no-op so that no thread runs.  The harness then swaps in the scripted _shutdown_event and calls run() itself."""
 
-    def __init__(self, interval_sec, get_connection_holders, timeout, shutdown_event):
-        Thread.__init__(self, name="Connection heartbeat (simulated)")
-        self._interval = interval_sec
-        self._timeout = timeout
-        self._get_connection_holders = get_connection_holders
-        self._shutdown_event = shutdown_event
-        self.daemon = True
+    def start(self):
+        pass
+
+
+def make_heartbeat(interval_sec, get_connection_holders, timeout, shutdown_event):
+    hb = OneRoundHeartbeat(interval_sec, get_connection_holders, timeout)
+    hb._shutdown_event = shutdown_event
+    return hb
 
 
 class HbHarness:
@@ -186,6 +188,7 @@ class HbHarness:
 
         class RecordingFuture(saved):
             def __init__(self, connection, owner):
+                self._harness_conn = connection
                 try:
                     saved.__init__(self, connection, owner)
                 finally:
@@ -195,12 +198,12 @@ class HbHarness:
                 try:
                     saved.wait(self, timeout)
                 except Exception as exc:
-                    h.log.append(("wait", h.name_of(self.connection), type(exc).__name__))
+                    h.log.append(("wait", h.name_of(self._harness_conn), type(exc).__name__))
                     raise
-                h.log.append(("wait", h.name_of(self.connection), "ok"))
+                h.log.append(("wait", h.name_of(self._harness_conn), "ok"))
         cconn.HeartbeatFuture = RecordingFuture
         try:
-            hb = OneRoundHeartbeat(INTERVAL, self.cluster.get_connection_holders, TIMEOUT, ScriptedShutdownEvent(self))
+            hb = make_heartbeat(INTERVAL, self.cluster.get_connection_holders, TIMEOUT, ScriptedShutdownEvent(self))
             hb.run()
         except Exception as exc:             # run() swallows everything itself; this is a broken driver
             self.round_error = exc
